@@ -42,6 +42,9 @@ type c11Case struct {
 	Fill      string `json:"fill"`
 	KeyCfg    string `json:"key_cfg,omitempty"` // ValidateEncodedResponse: field | setter | both-same | both-different
 	Signed    string `json:"signed,omitempty"`  // "response" | "assertion"
+	// EncMask (ValidateEncodedResponse level, 0 = one assertion, encrypted): a Response with two
+	// assertions of which the first (1), the second (2) or both (3) are encrypted
+	EncMask int `json:"enc_mask,omitempty"`
 }
 
 func c11Plain(n, tail int) []byte {
@@ -111,12 +114,21 @@ func c11Exec(c c11Case) (keys []string, detail, class string) {
 		conf.EncField, conf.EncSetter = "KX", "KS" // the setter's key is the one in force
 	}
 	mk := func(encrypted bool) string {
-		r := idp.DefaultResponse(1)
+		n := 1
+		if c.EncMask != 0 {
+			n = 2
+		}
+		r := idp.DefaultResponse(n)
 		uniq(&r, "c11")
+		if n == 2 {
+			r.Assertions[1].NameID = "second-subject@example.com"
+		}
 		if c.Signed == "response" {
 			r.Sign = idp.SignSpec{Key: "K1"}
 		} else {
-			r.Assertions[0].Sign = idp.SignSpec{Key: "K1"}
+			for i := range r.Assertions {
+				r.Assertions[i].Sign = idp.SignSpec{Key: "K1"}
+			}
 		}
 		if !encrypted {
 			return idp.RenderResponse(r)
@@ -126,15 +138,19 @@ func c11Exec(c c11Case) (keys []string, detail, class string) {
 		unsignedR := r
 		unsignedR.Sign = idp.SignSpec{}
 		doc := idp.BuildResponse(unsignedR)
-		as := oracle.Children(doc.Root(), oracle.NSA, "Assertion")[0]
-		pt := idp.StandaloneBytes(as)
-		for len(pt)%16 != c.Len%16 {
-			pt = append(pt, ' ')
+		for i, as := range oracle.Children(doc.Root(), oracle.NSA, "Assertion") {
+			if c.EncMask != 0 && c.EncMask&(1<<i) == 0 {
+				continue
+			}
+			pt := idp.StandaloneBytes(as)
+			for len(pt)%16 != c.Len%16 {
+				pt = append(pt, ' ')
+			}
+			ea := idp.EncryptPlaintext(pt, c11EncSpec(c, toKey))
+			idx := as.Index()
+			doc.Root().RemoveChildAt(idx)
+			doc.Root().InsertChildAt(idx, ea)
 		}
-		ea := idp.EncryptPlaintext(pt, c11EncSpec(c, toKey))
-		idx := as.Index()
-		doc.Root().RemoveChildAt(idx)
-		doc.Root().InsertChildAt(idx, ea)
 		if c.Signed == "response" {
 			idp.SignInPlace(doc.Root(), idp.SignSpec{Key: "K1"})
 		}
@@ -153,7 +169,19 @@ func c11Exec(c c11Case) (keys []string, detail, class string) {
 	}
 	a, b := oracle.FromResponse(resp), oracle.FromResponse(tresp)
 	if a.Key() != b.Key() || resp.SignatureValidated != tresp.SignatureValidated || resp.Assertions[0].SignatureValidated != tresp.Assertions[0].SignatureValidated {
-		return []string{"C11/ValidateEncodedResponse/data-differs-from-twin"}, detail, "TWIN-DIFFERS"
+		what := ""
+		if len(a.Assertions) == len(b.Assertions) && len(a.Assertions) == 2 && a.Assertions[0] == b.Assertions[1] && a.Assertions[1] == b.Assertions[0] {
+			what = "/assertion-order"
+		}
+		return []string{"C11/ValidateEncodedResponse/data-differs-from-twin" + what}, detail + fmt.Sprintf(" | first subject: encrypted=%q twin=%q", firstNameID(resp), firstNameID(tresp)), "TWIN-DIFFERS"
+	}
+	// the caller-facing summary too (it is taken from the first assertion)
+	if c.EncMask != 0 {
+		ia, ra := retrieveInfo(conf.Build(), mk(true))
+		ib, rb := retrieveInfo(conf.Build(), mk(false))
+		if ra.Accepted() != rb.Accepted() || (ra.Accepted() && ia.NameID != ib.NameID) {
+			return []string{"C11/RetrieveAssertionInfo/summary-differs-from-twin"}, detail, "TWIN-DIFFERS"
+		}
 	}
 	return nil, detail, "twin-equal/" + c.KeyCfg
 }
@@ -181,6 +209,13 @@ func c11Replay(raw json.RawMessage) ([]string, string) {
 	}
 	k, d, _ := c11Exec(c)
 	return k, d
+}
+
+func firstNameID(r *types.Response) string {
+	if r == nil || len(r.Assertions) == 0 || r.Assertions[0].Subject == nil || r.Assertions[0].Subject.NameID == nil {
+		return ""
+	}
+	return r.Assertions[0].Subject.NameID.Value
 }
 
 func c11Cases(thorough bool) (cases []c11Case, n1 int) {
@@ -218,11 +253,21 @@ func c11Cases(thorough bool) (cases []c11Case, n1 int) {
 			cases = append(cases, cc)
 		}
 	})
+	// two assertions, every non-empty subset of them encrypted
+	for _, signed := range []string{"assertion", "response"} {
+		for mask := 1; mask <= 3; mask++ {
+			for _, alg := range []int{0, 3} {
+				for _, kc := range []string{"field", "setter"} {
+					cases = append(cases, c11Case{Level: "ValidateEncodedResponse", DataAlg: alg, KeyCfg: kc, Signed: signed, Len: 1, EncMask: mask})
+				}
+			}
+		}
+	}
 	return cases, n1
 }
 
 func c11Run(r *mc.Run) {
-	r.Rule = "DecryptBytes level: full product data algorithm(5) x key transport/digest(9: OAEP-MGF1P and OAEP 1.1 with digest absent/sha1/sha256/sha512, RSA 1.5) x EncryptedKey placement(2) x recipient certificate(2) x plaintext length 0..48 x tail(4: non-zero, 1, 2, 16 zero bytes) x CBC pad fill(3: zero, PKCS#7, 0xff), oracle = an independent XML-Enc encryptor (idp/enc.go): decrypted bytes = plaintext exactly; ValidateEncodedResponse level: 45 combinations x 16 residues mod 16 x placement(2) x signing(2) x 4 key configurations (field, setter, both same, both different), oracle = plaintext twin. non-trivial = decryption reached the symmetric step; distinct = distinct case"
+	r.Rule = "DecryptBytes level: full product data algorithm(5) x key transport/digest(9: OAEP-MGF1P and OAEP 1.1 with digest absent/sha1/sha256/sha512, RSA 1.5) x EncryptedKey placement(2) x recipient certificate(2) x plaintext length 0..48 x tail(4: non-zero, 1, 2, 16 zero bytes) x CBC pad fill(3: zero, PKCS#7, 0xff), oracle = an independent XML-Enc encryptor (idp/enc.go): decrypted bytes = plaintext exactly; ValidateEncodedResponse level: 45 combinations x 16 residues mod 16 x placement(2) x signing(2) x 4 key configurations (field, setter, both same, both different), plus Responses with two assertions of which the first, the second or both are encrypted (2 algorithms x 2 key configurations x 2 signing placements), oracle = plaintext twin (same outcome, same data in the same order, same summary). non-trivial = decryption reached the symmetric step; distinct = distinct case"
 	r.Assume("for non-default OAEP digests MGF1 uses the same hash (the reading under which the library's exported identifiers interoperate with itself)")
 	cases, n1 := c11Cases(r.Thorough())
 	r.Set("decryptbytes_cases", n1)
